@@ -283,8 +283,10 @@ def numeric_spectrum_dim(ctx, cls, dim, dim2):
 #                                                      ->  Gamma(d/2+1) J_(d/2)(k l/2)^2 / (pi^(d/2) k^d);  k = 0: (l/4)^d/(Gamma(d/2+1) pi^(d/2))
 #   JBessel     rho = Gamma(nu+1) J_nu(r/l)/(r/(2l))^nu (Sonine)
 #                                                      ->  (l/sqrt(pi))^d Gamma(nu+1)/Gamma(nu-d/2+1) (1-(k l)^2)^(nu-d/2) for k < 1/l, else 0
-# with l = len_scale / rescale.  Documented deviations kept as they are stated in the code comments: Matern for
-# nu > 20 and Integral for nu > 50 use the stated Gaussian-limit approximation; JBessel caps 1/Gamma at 100.
+# with l = len_scale / rescale.  Matern for nu > 20 has the Gaussian-limit correlation exp(-(r/(2l))^2) (code and C03
+# contract), so its density is the transform of THAT function, (l/sqrt(pi))^d exp(-(k l)^2).  Kept as stated in the code
+# comments: Integral for nu > 50 (outside the default bounds of nu).  JBessel: the documented tweak at the degenerate end
+# nu - (d/2 - 1) < 0.01 is outside the clause (no density exists there); everywhere else the tabulated transform is demanded.
 def _G(ctx, x):
     """Gamma at a concrete argument, exact at (half-)integers in symbolic runs (as the engine does for the code)"""
     if ctx.mode == "sym":
@@ -322,7 +324,7 @@ def density_table(ctx, cls, dim, k):
         ctx.require(ctx.And(ctx.gt(nu, 0.0), ctx.le(nu, 50.0)))
         kw["nu"] = nu
     elif cls == "JBessel":
-        nu = ctx.real("nu", lo=dim / 2.0 - 1 + 0.05, hi=dim / 2.0 + 3.0)
+        nu = ctx.real("nu", lo=dim / 2.0 - 1 + 0.05, hi=dim / 2.0 + 12.0)
         ctx.require(ctx.And(ctx.ge(nu, dim / 2.0 - 1), ctx.le(nu, 50.0)))
         kw["nu"] = nu
     mod = _q(getattr(gs, cls), dim=dim, len_scale=l, rescale=s, **kw)
@@ -349,7 +351,8 @@ def density_table(ctx, cls, dim, k):
         x = (kv * L) ** 2
         exact = (L / sqpi) ** d * m.exp(-(nu + d / 2.0) * m.log(1.0 + x / nu) + m.fn("loggamma", nu + d / 2.0)
                                         - m.fn("loggamma", nu) - d * m.log(m.sqrt(nu)))
-        approx = (L / sqpi) ** d * m.exp(-x) * (1 + 0.5 * x ** 2 / nu) * m.sqrt(1 + x / nu) ** (-d)
+        # nu > 20: the correlation of the model is the Gaussian limit exp(-(r/(2L))^2) (C03), its transform is
+        approx = (L / sqpi) ** d * m.exp(-x)
         want = m.ite(ctx.gt(nu, 20.0), approx, exact) if ctx.mode == "sym" else (approx if float(nu) > 20.0 else exact)
     elif cls == "Integral":
         fac = (0.5 * L / sqpi) ** d
@@ -369,7 +372,14 @@ def density_table(ctx, cls, dim, k):
             j = m.fn("jv", d / 2, kv * L / 2)
             want = _G(ctx, d / 2 + 1) / sqpi ** d * j ** 2 / kv ** d
     else:
-        want = ((L / sqpi) ** d * m.fn("gamma", nu + 1.0) / m.min(m.fn("gamma", nu - d / 2 + 1), 100.0)
+        # the tabulated transform; at the degenerate end nu -> d/2 - 1 the spectral measure is a shell (no density):
+        # there (nu - (d/2 - 1) < 0.01) the code documents a tweak, which is not part of this clause
+        ctx.require(ctx.ge(nu - d / 2 + 1, 0.01))
+        if ctx.mode == "sym":
+            ga = m.fn("gamma", nu - d / 2 + 1)
+            ctx.hint(ctx.Implies(ctx.lt(nu - d / 2 + 1, 1), ctx.le(ga, 100.0)),
+                     "Gamma is decreasing on (0, 1]: Gamma(a) <= Gamma(0.01) = 99.43 < 100 for 0.01 <= a < 1 (T8)")
+        want = ((L / sqpi) ** d * m.fn("gamma", nu + 1.0) / m.fn("gamma", nu - d / 2 + 1)
                 * m.pow(1.0 - (kv * L) ** 2, nu - d / 2))
     ctx.ensure("density=tabulated-transform", ctx.eq(got, want))
 
